@@ -28,7 +28,9 @@ RULE_TEXT = ("bases: the test/blt corpus files <= size_cap plus seeded generated
              "(path= through SimFS, data= decoded text). evaluations = faulted reads judged by the oracle. A key is "
              "(fault-kind multiset, OS fault, outcome class, normalised error message, raising parser function:line); "
              "non-trivial = the stored bytes differ from the base or an OS fault fired; distinct_nontrivial = number "
-             "of distinct keys.")
+             "of distinct keys. regress arm: the reduced failing inputs of past findings and relatives, unfaulted and with "
+             "every systematic single fault. soup arm (exhaustive): every sequence of 0-4 tokens over an 18-token BLT "
+             "alphabet.")
 
 
 def _work(task):
@@ -39,6 +41,9 @@ def _work(task):
     if kind == 'seq':
         _, R, seed, bases, first, count, realfs = task
         return c16.work_sequences(R, seed, bases, first, count, realfs)
+    if kind == 'soup':
+        _, R, part, nparts = task
+        return c16.work_soups(R, part, nparts)
     if kind == 'scale':
         _, R, seed, name, base = task
         return c16.work_scale(R, seed, name, base)
@@ -60,6 +65,17 @@ def run(R, tier, seed):
         for part in range(nparts):
             tasks.append(('enum', R, seed, name, base, part, nparts))
             arm.append('enum')
+    # past failing inputs and relatives: unfaulted through the oracle and every systematic single fault around them
+    regress = [('regress/' + n, t.encode('utf-8')) for n, t in c16.REGRESSION_INPUTS]
+    tasks.append(('free', R, regress))
+    arm.append('regress')
+    for name, base in regress:
+        if len(base) <= 600:
+            tasks.append(('enum', R, seed, name, base, 0, 1))
+            arm.append('regress')
+    for part in range(16):
+        tasks.append(('soup', R, part, 16))
+        arm.append('soup')
     small = sorted((b for b in bases if 60 <= len(b[1]) <= 700 and b[0].startswith('gen/')), key=lambda b: b[0])
     for name, base in small[:P['scale_bases']]:
         tasks.append(('scale', R, seed, name, base))
